@@ -239,18 +239,18 @@ def C04(tier, seed):
     chk = Check('C04', tier, seed)
     def steps_fn(prog): return [('ev', e) for e in prog.events] + [('enq', 'e1'), ('enq', 'e3'), ('execq',), ('exec1',)]
     def bsteps(prog): return [('start',)] + [('ev', e) for e in prog.events] + [('enq', 'e0', '0'), ('enq', 'e1', '0'), ('enq', 'e2', '0'), ('enq', 'e3', '0'), ('exec1',)]
-    # backmp11: machine Q, up to 2 pending events in the pre-state and up to 3 submissions in the step
-    oracle_units(chk, ['Q'], [3] + ([4] if tier == 'thorough' else []), 'C04', proj=STD, check_queue=True, opts={'queue_api': True},
+    # machine Q, up to 2 pending events in the pre-state and up to 3 submissions in the step (back / back11: the
+    # configurations CBMC does not decide within the budget are listed in not_decided.json and reported)
+    oracle_units(chk, ['Q'], [0, 2, 3] + ([4] if tier == 'thorough' else []), 'C04', proj=STD, check_queue=True, opts={'queue_api': True},
                  steps_fn=steps_fn, bfs_steps_fn=bsteps, conf_filter=lambda c: c.started and len(c.queue) <= 2, bfs_depth=5,
                  max_confs=(60 if tier == 'thorough' else 20), timeout=90, unwind=16, strats=['nkG', 'pk'])
-    # back / back11: machine Q2 (one nested submission per top-level call, <= 1 pending): draining two or more boost::function entries gives no
-    # verdict (DESIGN 9), so FIFO order among several pending events is not decided for these back-ends
+    # back / back11 additionally: machine Q2 (one nested submission per top-level call, <= 1 pending)
     oracle_units(chk, ['Q2'], [0, 2], 'C04', proj=STD, check_queue=True, opts={'queue_api': True},
                  steps_fn=lambda prog: [('ev', e) for e in prog.events] + [('enq', 'e1'), ('exec1',)],
                  bfs_steps_fn=lambda prog: [('start',)] + [('ev', e) for e in prog.events] + [('enq', 'e1', '0'), ('exec1',)],
                  conf_filter=lambda c: c.started and len(c.queue) <= 1, bfs_depth=5, max_confs=16, timeout=90, unwind=8, strats=['nkG', 'pk'])
-    chk.bounds.update({'pending_events_in_pre_state': 'backmp11: 0..2, back/back11: 0..1 (payload 0, submitted through enqueue_event from outside)',
-                       'submissions_per_step': 'backmp11: 0..3 from guard / action / entry / exit; back/back11: chains of single submissions'})
+    chk.bounds.update({'pending_events_in_pre_state': '0..2 (payload 0, submitted through enqueue_event from outside)',
+                       'submissions_per_step': '0..3 from guard / action / entry / exit (machine Q); chains of single submissions (machine Q2)'})
     return chk
 
 
